@@ -7,6 +7,11 @@ Driver for C02.  Ops (tokens; byte strings as `x<hex>`, backends as `<id>:x<secr
 * `cfg <compat | -> <b1,b2,… | -> u=<enc "mode;id=url;…">`            backend table of the case; in mode `backends` the urls
       are the configured ones (stored `'/'`-terminated as `getConfiguredHosts` does), in mode `etcd` the urls of the
       etcd values (stored as given), keys = backend ids
+      The backend tokens carry the **own** secret of the section (`b1:x` = no `secret` option) and `cs=x<hex>` the common
+      `[backend] secret` of the file: the model derives the secrets in force with `startSecrets`/`reloadSecrets`, the
+      judge with `specSecrets`.
+* `reload <-> <b1,b2,… | -> [cs=…] u=<enc "mode;id=url;…">`          the same server loads another configuration: mode `backends`
+      `Reload(file)`, mode `etcd` the key deletions/updates that lead there.  From here on the judge goes by this file.
 * `sign <label> <id> <x random> <x body>`                             `CalculateBackendChecksum` under `id`'s secret → `sum x<hex>`; defines reference `label`
 * `req <label|-> <hdr> <x random> <x checksum> <x body> <bodyok> <ct> <len|-> <room> [u=…]`
       one POST /api/v1/room/<room>; hdr = `-` | `?` | `b:<id>` → `<status> t<0|1> <events>`.  `u=` is the literal value of
@@ -17,7 +22,9 @@ Driver for C02.  Ops (tokens; byte strings as `x<hex>`, backends as `<id>:x<secr
 * `fn <x checksum> <x random> <x body> <x secret>`                    `ValidateBackendChecksumValue` → `0|1`
 * `out <kind> <id|-> [u=<enc url>]`                                   one `PerformJSONRequest` (to `url` if given — then `id` must be the
       backend the url belongs to by the spec —, else to the url of `id`); the implementation line carries what the fake
-      backend received: `out <x random> <x body> <x checksum>` | `none`
+      backend received, one group per request that carried a checksum, in the order of arrival:
+      `out {<enc url> <P|G> <x random> <x body> <x checksum>}` | `none`.  `rd=<enc "code location;code location…">`: the
+      fake backends answer the requests of this op with these redirects in turn (then 200).
 -/
 namespace SigModel.Driver.C02
 open SigModel SigModel.Proto SigModel.Checksum
@@ -25,13 +32,22 @@ open SigModel SigModel.Proto SigModel.Checksum
 def mac : Hmac.Mac := Hmac.hmacSha256
 
 structure St where
-  cfg : Cfg := ⟨none, []⟩
+  mode : String := ""             -- "" = no configuration yet
+  cfg : Cfg := ⟨none, []⟩         -- the model's table (secrets as the code derives them)
   entries : List Entry := []      -- mode `backends`: the backends with their stored urls, in configuration order
+  secrets : SecretState := {}
+  specCfg : Cfg := ⟨none, []⟩     -- the configuration in force as the statement reads the file loaded last
+  specEntries : List Entry := []
   judge : Judge := {}
 
+/-- The decoded `<p>…` token of an op (`p` = `u=`, `rd=`). -/
+def kvTok (p : String) (op : List String) : Option String :=
+  (op.find? (hasPrefix p)).bind fun t => dec (dropS p.length t)
+
 /-- The decoded `u=` token of an op. -/
-def uTok (op : List String) : Option String :=
-  (op.find? (hasPrefix "u=")).bind fun t => dec (dropS 2 t)
+def uTok (op : List String) : Option String := kvTok "u=" op
+
+def St.byUrl (st : St) : Bool := st.mode == "backends" || st.mode == "etcd"
 
 /-- Entries ordered by backend id (insertion sort, stable). -/
 def insertById (e : Entry) : List Entry → List Entry
@@ -82,16 +98,52 @@ def parseBackend (tok : String) : Option Backend :=
 def parseBackends (tok : String) : Option (List Backend) :=
   if tok == "-" then some [] else (tok.splitOn ",").mapM parseBackend
 
-def St.backend (st : St) (id : String) : Option Backend :=
-  match st.cfg.compat with
-  | some c => if c.id == id then some c else st.cfg.backends.find? (·.id == id)
-  | none => st.cfg.backends.find? (·.id == id)
+def cfgBackend (cfg : Cfg) (id : String) : Option Backend :=
+  match cfg.compat with
+  | some c => if c.id == id then some c else cfg.backends.find? (·.id == id)
+  | none => cfg.backends.find? (·.id == id)
 
-def parseHdr (st : St) (tok : String) : Option Hdr :=
+/-- A backend of the configuration in force (the statement's reading). -/
+def St.backend (st : St) (id : String) : Option Backend := cfgBackend st.specCfg id
+
+def parseHdr (cfg : Cfg) (tok : String) : Option Hdr :=
   if tok == "-" then some .absent
   else if tok == "?" then some .unknown
-  else if hasPrefix "b:" tok then (st.backend (dropS 2 tok)).map .known
+  else if hasPrefix "b:" tok then (cfgBackend cfg (dropS 2 tok)).map .known
   else none
+
+/-- `cfg` / `reload`: the tables of model and judge after loading a file. -/
+def load (st : St) (isReload : Bool) (c bs : String) (u : String) (cs : Bytes) : Option St :=
+  let mode := (u.splitOn ";").headD ""
+  match (if c == "-" then some none else (parseBackend c).map some), parseBackends bs with
+  | some compat, some raw =>
+    if isReload && !(st.mode == mode && (mode == "backends" || mode == "etcd") && compat.isNone) then none
+    else if mode == "" then none
+    else if mode == "backends" then
+      let file : SecretFile := ⟨cs, raw⟩
+      let sec := if isReload then reloadSecrets st.secrets file else startSecrets file
+      let spec := specSecrets file
+      some { st with mode := mode, secrets := sec, cfg := ⟨compat, sec.backends⟩, entries := parseEntries sec.backends u,
+                     specCfg := ⟨compat, spec⟩, specEntries := parseEntries spec u }
+    else
+      some { st with mode := mode, secrets := {}, cfg := ⟨compat, raw⟩, entries := parseEntries raw u,
+                     specCfg := ⟨compat, raw⟩, specEntries := parseEntries raw u }
+  | _, _ => none
+
+def parseHops (s : String) : List Hop :=
+  (s.splitOn ";").filterMap fun h =>
+    match h.splitOn " " with
+    | [code, loc] => (toNat? code).map fun c => ⟨c, loc.toList⟩
+    | _ => none
+
+/-- The groups `<enc url> <P|G> <x random> <x body> <x checksum>` of an implementation line. -/
+def parseRecvs : List String → Option (List Recv)
+  | [] => some []
+  | url :: m :: rnd :: body :: sum :: rest =>
+    match dec url, parseX rnd, parseX body, parseX sum, parseRecvs rest with
+    | some url, some rnd, some body, some sum, some rs => some (⟨url.toList, m == "P", rnd, body, sum⟩ :: rs)
+    | _, _, _, _, _ => none
+  | _ => none
 
 /-- The smallest id among the backends that share the secret of `b` (the order in which
 `GetBackends()` lists backends with equal secrets is that of a Go map). -/
@@ -127,12 +179,21 @@ def parseImplResp : List String → Option Resp
 
 def step (st : St) (op impl : List String) : St × String × String :=
   let u := uTok op
-  let op := op.filter (fun t => !(hasPrefix "#" t || hasPrefix "u=" t || hasPrefix "wr=" t || hasPrefix "wc=" t || hasPrefix "ct=" t))
+  let rd := kvTok "rd=" op
+  let cs : Bytes := ((op.find? (hasPrefix "cs=")).bind fun t => parseX (dropS 3 t)).getD []
+  let op := op.filter (fun t => !(hasPrefix "#" t || hasPrefix "u=" t || hasPrefix "wr=" t || hasPrefix "wc=" t || hasPrefix "ct=" t ||
+    hasPrefix "cs=" t || hasPrefix "rd=" t))
+  -- before the first configuration there is no server: only `cfg` and the function-level `fn` mean anything
+  if st.mode == "" && !(op.head? == some "cfg" || op.head? == some "fn") then (st, "bad-op", "na") else
   match op with
   | ["cfg", c, bs] =>
-    match (if c == "-" then some none else (parseBackend c).map some), parseBackends bs with
-    | some c, some bs => ({ st with cfg := ⟨c, bs⟩, entries := parseEntries bs (u.getD "") }, "-", "na")
-    | _, _ => (st, "bad-op", "na")
+    match load st false c bs (u.getD "") cs with
+    | some st' => (st', "-", "na")
+    | none => (st, "bad-op", "na")
+  | ["reload", c, bs] =>
+    match load st true c bs (u.getD "") cs with
+    | some st' => (st', "-", "na")
+    | none => (st, "bad-op", "na")
   | ["sign", label, id, rnd, body] =>
     match st.backend id, parseX rnd, parseX body with
     | some b, some rnd, some body =>
@@ -158,13 +219,15 @@ def step (st : St) (op impl : List String) : St × String × String :=
   | ["req", label, hdrTok, rnd, sum, body, bodyok, ct, len, room] =>
     -- the header value as a URL (model: `hdrOf`, spec: `owners`) or as an input (the token)
     let byUrl := match u with
-      | some v => if !st.entries.isEmpty && (v.isEmpty || plainUrl v.toList) then some v.toList else none
+      | some v => if st.byUrl && (v.isEmpty || plainUrl v.toList) then some v.toList else none
       | none => none
     let hdrCl : Option (Hdr × List Backend × Bool) := match byUrl with
       | some v =>
-        let cl := claimedUrl st.cfg st.entries v
+        let cl := claimedUrl st.specCfg st.specEntries v
         some (hdrOf st.entries v, cl, claimTok v.isEmpty cl == hdrTok)
-      | none => (parseHdr st hdrTok).map fun h => (h, claimed st.cfg h, true)
+      | none => (parseHdr st.specCfg hdrTok).map fun h =>
+        -- the model's table may lack a backend the configuration in force has
+        ((parseHdr st.cfg hdrTok).getD .unknown, claimed st.specCfg h, true)
     match hdrCl, parseX rnd, parseX sum, parseX body with
     | some (_, cl, false), _, _, _ => (st, "bad-op:claim-token:" ++ claimTok false cl, "na")
     | some (hdr, cl, true), some rnd, some sum, some body =>
@@ -185,28 +248,35 @@ def step (st : St) (op impl : List String) : St × String × String :=
   | ["out", _kind, id] =>
     -- model: the backend the lookup finds for the target url; spec: the backend the url belongs to
     let byId := if id == "-" then none else st.backend id
+    let byIdM := if id == "-" then none else cfgBackend st.cfg id
+    let url := (u.getD "").toList
     let byUrl := match u with
-      | some v => if !st.entries.isEmpty && plainUrl v.toList then some v.toList else none
+      | some v => if st.byUrl && plainUrl v.toList then some v.toList else none
       | none => none
     let (targetM, target, tokOk) : Option Backend × Option Backend × Bool := match byUrl with
       | some v =>
-        let o : Option Backend := (owners st.entries v).head?
+        let o : Option Backend := (owners st.specEntries v).head?
         (lookup st.entries v, o, (o.map (·.id)).getD "-" == id)
-      | none => (byId, byId, true)
+      | none => (byIdM, byId, true)
     if !tokOk then (st, "bad-op:claim-token:" ++ (target.map (·.id)).getD "-", "na") else
-    match impl with
-    | ["out", rnd, body, sum] =>
-      match parseX rnd, parseX body, parseX sum with
-      | some rnd, some body, some sum =>
-        -- the model cannot know the random: it recomputes the checksum for the random and body that were sent
-        let m := match targetM with
-          | some b => "out " ++ xhex rnd ++ " " ++ xhex body ++ " " ++ xhex (checksumOf mac rnd body b.secret)
-          | none => "none"
-        let (j, v) := st.judge.observeOut mac target rnd body sum
-        ({ st with judge := j }, m, v)
-      | _, _, _ => (st, "bad-impl", "na")
-    | ["none"] => (st, if targetM.isNone then "none" else "out", if target.isNone then "ok" else "violated:no-request-sent")
-    | _ => (st, if targetM.isNone then "none" else "out", "na")
+    let sent := deliveries targetM url (parseHops (rd.getD ""))
+    let recvs : Option (List Recv) := match impl with
+      | ["none"] => some []
+      | "out" :: groups => if groups.isEmpty then none else parseRecvs groups
+      | _ => none
+    match recvs with
+    | some rs =>
+      -- the model cannot know the random: it recomputes the checksum for the random and body that were sent first
+      let m := match rs, targetM with
+        | r0 :: _, some b =>
+          let sum := xhex (checksumOf mac r0.random r0.body b.secret)
+          "out" ++ String.join (sent.map fun d =>
+            " " ++ enc (String.ofList d.url) ++ (if d.post then " P " else " G ") ++ xhex r0.random ++ " " ++
+              xhex (if d.body then r0.body else []) ++ " " ++ sum)
+        | _, _ => if sent.isEmpty then "none" else "out"
+      let (j, v) := st.judge.observeDeliveries mac st.specEntries st.byUrl target rs
+      ({ st with judge := j }, m, v)
+    | none => (st, if sent.isEmpty then "none" else "out", "na")
   | _ => (st, "bad-op", "na")
 
 end SigModel.Driver.C02
